@@ -1795,20 +1795,25 @@ class Evaluator:
             except Unsupported:
                 v = Sym("unsupported")
             armenvs = []
+            skipped = ()    # undecided `if` guards of earlier arms: a later arm is reached only when they failed
             for a in n["arms"]:
                 arm = tb.arms[a]
                 c, binds = self.pat_cond(arm["pat"], v, env)
                 env2 = dict(env)
                 env2.update(binds)
+                gc = None
                 if arm.get("guard") is not None:
                     try:
-                        c = self.logic("and", c, self.as_cond(self.eval(tb, arm["guard"], env2, depth)))
+                        gc = self.as_cond(self.eval(tb, arm["guard"], env2, depth))
                     except Unsupported:
-                        c = self.logic("and", c, Cond("sym", "guard?"))
+                        gc = Cond("sym", "guard?")
+                    c = self.logic("and", c, gc)
                 if isinstance(c, Cond) and c.op == "false":
                     continue  # first-match semantics on decided patterns
-                self._collect(tb, arm["body"], env2, depth, follow, out, guard + (ckey(c),), path)
+                self._collect(tb, arm["body"], env2, depth, follow, out, guard + skipped + (ckey(c),), path)
                 armenvs.append((c, env2))
+                if gc is not None and not (isinstance(c, Cond) and c.op == "true"):
+                    skipped = skipped + ("not " + ckey(c),)
                 if isinstance(c, Cond) and c.op == "true":
                     break
             for kk in list(env):
